@@ -279,7 +279,7 @@ func runParent(e *Engine, tier string, seed uint64, par int) int {
 							os.WriteFile(filepath.Join(VerifDir, ".work", fmt.Sprintf("%s.watchdog.%d.txt", e.ID, last)), []byte(tail(out, 200000)), 0o644)
 						} else {
 							// the checkpointed result may lag behind: evaluations are taken from the log
-							res.Evaluations = last - lo
+							res.Evaluations = last - lo + 1
 							fsig := "fatal"
 							if e.ClassifyFatal != nil {
 								fsig = e.ClassifyFatal(head(out, 60000))
